@@ -112,10 +112,17 @@ def load_known():
         return out
     for raw in open(KNOWN):
         s = raw.strip()
+        if s.startswith("fixed:"):
+            # documentation only, except for an optional native regression guard (see regression_guards)
+            m = re.search(r"property=(\S+).*?native_test=(\S+)", s)
+            if m:
+                out.append({"kind": "fixed", "property": m.group(1), "native_test": m.group(2),
+                            "what": s[len("fixed:"):].strip()})
+            continue
         if not s.startswith("finding:"):
             continue
         head, _, what = s[len("finding:"):].partition("::")
-        d = {"what": what.strip()}
+        d = {"kind": "finding", "what": what.strip()}
         for m in re.finditer(r'(\w+)=("([^"]*)"|\S+)', head):
             d[m.group(1)] = m.group(3) if m.group(3) is not None else m.group(2)
         out.append(d)
@@ -124,7 +131,7 @@ def load_known():
 
 def known_match(known, prop, harness_id, desc):
     for k in known:
-        if k.get("property") != prop or not k.get("harness") or not k.get("check"):
+        if k.get("kind") != "finding" or k.get("property") != prop or not k.get("harness") or not k.get("check"):
             continue  # native_test findings (no solver-side detector) never match a harness failure
         if k.get("harness", "") in harness_id and k.get("check", "") in desc:
             return k
@@ -304,7 +311,10 @@ def native_test_cmd(release, test_name, extra_cfg=("verif_native", "verif_playba
 KNOWN_REPORTED = []
 
 
-def native_finding(spec):
+GUARDS = []
+
+
+def native_finding(spec, word="FINDING", outcomes=("REPRODUCED", "ABSENT")):
     """A listed finding that has no solver-side detector (code CBMC cannot execute) carries `native_test=<crate>:<test>`:
     an integration test of the harness crate, built with the ordinary toolchain against /repo's working tree, that
     prints FINDING-REPRODUCED / FINDING-ABSENT and never fails. It only decides whether the KNOWN-FINDING line is
@@ -317,7 +327,7 @@ def native_finding(spec):
                            stderr=subprocess.STDOUT, text=True, timeout=1200)
     except Exception as e:  # noqa
         return "not run", str(e)
-    m = re.search(r"FINDING-(REPRODUCED|ABSENT)[^\n]*", p.stdout)
+    m = re.search(word + r"-(" + "|".join(outcomes) + r")[^\n]*", p.stdout)
     if not m:
         return "not run", p.stdout[-300:]
     return m.group(1), m.group(0)[:300]
@@ -390,6 +400,17 @@ def concrete_playback(unit, harness_id, prop):
 
 
 def replay_file(path):
+    if path.endswith(".rs"):
+        # a native regression guard (harness/<crate>/tests/<test>.rs): run it against the current tree
+        crate = os.path.basename(os.path.dirname(os.path.dirname(os.path.abspath(path))))
+        test = os.path.basename(path)[:-3]
+        prop = next((k["property"] for k in load_known() if k.get("native_test") == f"{crate}:{test}"), "?")
+        st, detail = native_finding(f"{crate}:{test}", "(?:REGRESSION|FINDING)", ("PRESENT", "REPRODUCED", "ABSENT"))
+        log(f"native replay {crate}:{test}: {st} {detail}")
+        if st in ("PRESENT", "REPRODUCED"):
+            log(f"VIOLATION property={prop} replay={path}")
+            return 1
+        return 0 if st == "ABSENT" else 2
     rec = json.load(open(path))
     log(f"replay of {rec['harness']} (property {rec['property']}), crate {rec['crate']}")
     units = [u for u in discover() if u.crate == rec["crate"] and u.matches(rec["harness"])]
@@ -512,7 +533,20 @@ def main(argv):
         log(f"KNOWN-FINDING: property={prop} {k['what']}")
         KNOWN_REPORTED.append({"what": k["what"], "how": "solver: listed assertion failed in " + r["harness"]})
     for k in known:
-        if k.get("property") == prop and k.get("native_test") and not a.only:
+        if k.get("kind") == "fixed" and k.get("property") == prop and k.get("native_test") and not a.only:
+            # regression guard of a repaired defect that has no solver-side detector: native replay of the recorded
+            # failing history; PRESENT means the defect is back
+            st, detail = native_finding(k["native_test"], "REGRESSION", ("PRESENT", "ABSENT"))
+            crate, _, test = k["native_test"].partition(":")
+            src = os.path.join(HARNESS_ROOT, crate, "tests", test + ".rs")
+            if st == "PRESENT":
+                log(f"  FAILED   native regression guard {k['native_test']}: {detail}")
+                violations.append(({"harness": "native:" + k["native_test"]}, src))
+            else:
+                log(f"  guard    {k['native_test']:48} {st}: {detail[:160]}")
+            GUARDS.append({"guard": k["native_test"], "result": st, "detail": detail})
+    for k in known:
+        if k.get("kind") == "finding" and k.get("property") == prop and k.get("native_test") and not a.only:
             st, detail = native_finding(k["native_test"])
             if st == "REPRODUCED":
                 log(f"KNOWN-FINDING: property={prop} {k['what']}")
@@ -581,6 +615,7 @@ def write_evidence(prop, tier, seed, results, runs, wall, nviol, inconclusive):
             "engine": "kani 0.68.0 / CBMC 6.11.0 / cadical; goto programs regenerated from /repo working tree on this run",
             "commands": [" ".join(r["cmd"]) for r in runs],
             "known_findings_reported": list(KNOWN_REPORTED),
+            "native_regression_guards": list(GUARDS),
             "exhaustive": False,
         },
         "assumptions": [
